@@ -192,7 +192,7 @@ def check_case(ctx, case):
 
 
 def run(ctx):
-    for k in range(ctx.n(50, 500)):
+    for k in range(ctx.n(70, 600)):
         check_case(ctx, gen(ctx))
     ctx.lean.flush()
 
